@@ -1,6 +1,8 @@
 import RxProofs.C05
 import RxProofs.Lemmas.OpsNatural
 import RxGen.OpsPyVal
+import RxGen.OpsTruthiness
+import RxProofs.Lemmas.OpsNaturalTimed
 /-!
 # C08 — falsy values are ordinary elements
 
@@ -198,6 +200,50 @@ theorem materialize_natural (lag : Bool) (ρ : α → α') (raw : List (Notif α
     visible ((materializeOp (α := α')).run lag (mapN ρ raw))
       = mapN (Notif.map ρ) (visible ((materializeOp (α := α)).run lag raw)) := by
   rw [C05.materialize_eq, C05.materialize_eq]; simp [refMaterialize_natural]
+
+/-! ## Timed operators and windows (models of the Timed / Win families, read-only): renaming the elements of the
+source timeline commutes with the operator.  `delay` needs non-decreasing times (its `Run = Spec` theorem does). -/
+
+theorem timestamp_natural (ρ : α → α') (l : Timed.TL α) :
+    Timed.tsRun (Timed.mapTL ρ l) = Timed.mapTL (Prod.map ρ id) (Timed.tsRun l) := Timed.tsRun_natural ρ l
+
+theorem time_interval_natural (ρ : α → α') (sub : Nat) (l : Timed.TL α) :
+    Timed.tiRun sub (Timed.mapTL ρ l) = Timed.mapTL (Prod.map ρ id) (Timed.tiRun sub l) := Timed.tiRun_natural ρ sub l
+
+theorem delay_natural (ρ : α → α') (d lo : Nat) (l : Timed.TL α) (h : Timed.Mono lo l) :
+    Timed.delayRun d (Timed.mapTL ρ l) = Timed.mapTL ρ (Timed.delayRun d l) := Timed.delay_natural ρ d lo l h
+
+theorem throttle_first_natural (ρ : α → α') (w sub : Nat) (l : Timed.TL α) :
+    Timed.throttleFirst w sub (Timed.mapTL ρ l) = Timed.mapTL ρ (Timed.throttleFirst w sub l) :=
+  Timed.throttleFirst_natural ρ w sub l
+
+theorem debounce_natural (ρ : α → α') (d : Nat) (l : Timed.TL α) :
+    Timed.debRun d {} (Timed.mapTL ρ l) = Timed.mapTL ρ (Timed.debRun d {} l) := Timed.debounce_natural ρ d l
+
+theorem sample_natural (ρ : α → α') (tf : Bool) (l : Timed.TL α) (ticks : List (Nat × Timed.SampEv)) :
+    Timed.sampRun tf {} (Timed.mapTL ρ l) ticks = Timed.mapTL ρ (Timed.sampRun tf {} l ticks) :=
+  Timed.sample_natural ρ tf l ticks
+
+/-- `window_with_count` / `buffer_with_count`: window `k` of the renamed source holds the renamed contents of
+window `k` (how many windows exist and when they close does not depend on the values at all:
+`C18.wwc_window_count`, `C18.wwc_closes_at_count`). -/
+theorem window_with_count_natural (ρ : α → α') (count skip t0 : Nat) (hc : 0 < count) (hs : 0 < skip)
+    (tx : List (Nat × α)) (k : Nat) (hk : k * skip ≤ tx.length) :
+    (Win.Cnt.run count skip (Win.Cnt.init t0) (Win.Cnt.nexts (tx.map (fun e => (e.1, ρ e.2))))).b.pushedOf k
+      = ((Win.Cnt.run count skip (Win.Cnt.init t0) (Win.Cnt.nexts tx)).b.pushedOf k).map ρ :=
+  Win.window_with_count_natural ρ count skip t0 hc hs tx k hk
+
+/-! ## The structural obligation on /repo: no truthiness / `is None` / `or default` / None-sentinel test on a
+variable fed from an `on_next` argument (regenerated table `RxGen/OpsTruthiness.lean`, AST scan of
+`reactivex/{operators,subject,observable}`), except the reviewed sites below. -/
+
+/-- reviewed sites `(file, function, kind, expression)` with the reason each is not a test on an element's value.
+(Empty on the current tree: `pairwise`'s `if pair:` tests a freshly built 2-tuple-or-None, container emptiness tests
+such as `while q:` are not element tests; neither is reported by the scan.) -/
+def allowedTruthinessSites : List (String × String × String × String) := []
+
+theorem truthiness_sites_reviewed :
+    OpsTruthiness.sites.all (fun s => allowedTruthinessSites.contains s) = true := by decide
 
 /-! ## The meta-obligation: no operator model (as fixed) looks at truthiness / `is None` of an element -/
 
